@@ -111,6 +111,7 @@ func cmdCheck(args []string) int {
 			rc = 1
 			continue
 		}
+		spec.MutantKnownPath = *verif + "/known_findings.json"
 		run, err := an.NewRun(id, *tier, prog, *verif+"/known_findings.json")
 		if err != nil {
 			fmt.Fprintln(os.Stderr, err)
@@ -218,7 +219,9 @@ func cmdMutants(args []string) int {
 	fs := flag.NewFlagSet("mutants", flag.ExitOnError)
 	repo := fs.String("repo", "/repo", "repository root")
 	only := fs.String("only", "", "substring of the mutant name")
+	verif := fs.String("verif", "/verif", "verif root")
 	fs.Parse(args)
+	spec.MutantKnownPath = *verif + "/known_findings.json"
 	rc := 0
 	for _, id := range fs.Args() {
 		s := spec.Get(id)
